@@ -365,7 +365,7 @@ def backpressure_notified(F, R):
             continue
         for l in Origin(poll).of_operand(t['args'][1]):
             if l[0] == 'call' and l[1].startswith('control::Control') and l[1].endswith('::wr') and isinstance(l[2], int):
-                v = const_val(poll.blocks[l[2]]['term']['args'][0]) if poll.blocks[l[2]]['term'].get('args') else None
+                v = const_of_local(poll, poll.blocks[l[2]]['term']['args'][0]) if poll.blocks[l[2]]['term'].get('args') else None
                 if v in (0, 1):
                     wr[bool(v)].add(bi)
     n = 0
